@@ -169,6 +169,30 @@ func (s *Server) VerifInfo() string {
 		atomic.LoadInt64(&s.Info.Inflight), atomic.LoadInt64(&s.Info.InflightDropped), atomic.LoadInt64(&s.Info.MessagesDropped))
 }
 
+// VerifActual counts, from the broker's own data structures, what the $SYS counters claim to report.
+func (s *Server) VerifActual() string {
+	connected, inflight := 0, 0
+	for _, cl := range s.Clients.GetAll() {
+		if cl.Net.Inline {
+			continue
+		}
+		if cl.StopTime() == 0 && !cl.Closed() {
+			connected++
+		}
+		inflight += cl.State.Inflight.Len()
+	}
+	subs := 0
+	var walk func(n *particle)
+	walk = func(n *particle) {
+		for _, c := range n.particles.getAll() {
+			subs += c.subscriptions.Len() + c.shared.Len()
+			walk(c)
+		}
+	}
+	walk(s.Topics.root)
+	return fmt.Sprintf("connected=%d subs=%d retained=%d inflight=%d", connected, subs, s.Topics.Retained.Len(), inflight)
+}
+
 // VerifWillDelayed lists the client ids with a delayed will waiting.
 func (s *Server) VerifWillDelayed() string {
 	var ids []string
